@@ -150,6 +150,15 @@ func (r *Run) loadKnown() {
 	}
 }
 
+// KnownSignatures lists the signatures recorded as known findings for this property.
+func (r *Run) KnownSignatures() []string {
+	var out []string
+	for k := range r.known {
+		out = append(out, k)
+	}
+	return out
+}
+
 func (r *Run) Thorough() bool { return r.Tier == "thorough" }
 func (r *Run) Expired() bool  { return time.Now().After(r.Deadline) }
 
@@ -187,8 +196,12 @@ func (r *Run) Incomplete(why string) {
 	r.incomplete = append(r.incomplete, why)
 	r.mu.Unlock()
 }
-func (r *Run) Assume(s ...string)   { r.mu.Lock(); r.assumptions = append(r.assumptions, s...); r.mu.Unlock() }
-func (r *Run) Cov(k string, v any)  { r.mu.Lock(); r.cov[k] = v; r.mu.Unlock() }
+func (r *Run) Assume(s ...string) {
+	r.mu.Lock()
+	r.assumptions = append(r.assumptions, s...)
+	r.mu.Unlock()
+}
+func (r *Run) Cov(k string, v any) { r.mu.Lock(); r.cov[k] = v; r.mu.Unlock() }
 func (r *Run) Section(m map[string]any) {
 	r.mu.Lock()
 	r.sections = append(r.sections, m)
